@@ -201,6 +201,13 @@ SpecsConvSmall(s) ==
          Sv("LB", <<5>>, "Local", EpN2) }
   ELSE { Sv("LB", <<6>>, "Cluster", EpBoth), Sv("LB", <<6>>, "Cluster", EpNotReady) }
 NodesConvSmall(n) == IF n = "n1" THEN {NA, NB} ELSE {NA, Nd("a", FALSE, TRUE)}
+(* dual-stack services over layer 2 and BGP *)
+SpecsDual(s) ==
+  IF s = "s1"
+  THEN { Sv("LB", <<5, 105>>, "Cluster", EpBoth), Sv("LB", <<5>>, "Cluster", EpBoth), Sv("LB", <<105, 5>>, "Cluster", EpBoth),
+         Sv("LB", <<7, 105>>, "Cluster", EpBoth), Sv("CIP", <<5, 105>>, "Cluster", EpBoth) }
+  ELSE { Sv("LB", <<6>>, "Cluster", EpBoth) }
+InitDualSvcs == [s \in SpkSvcs |-> IF s = "s1" THEN Sv("LB", <<5, 105>>, "Cluster", EpBoth) ELSE NULL]
 InitConvSvcs == [s \in SpkSvcs |-> IF s = "s1" THEN Sv("LB", <<5>>, "Cluster", EpBoth) ELSE NULL]
 InitConvSvcs7 == [s \in SpkSvcs |-> IF s = "s1" THEN Sv("LB", <<7>>, "Cluster", EpBoth) ELSE NULL]
 InitConvSvcs2 == [s \in SpkSvcs |-> IF s = "s1" THEN Sv("LB", <<5>>, "Cluster", EpBoth) ELSE Sv("LB", <<6>>, "Cluster", EpBoth)]
